@@ -23,6 +23,7 @@ def hostOps (w : World) : Interp.HostOp → List Op
   | .log _ _ _ => [.log w.logs.length]
   | .selfdestruct a t => [.selfdestruct a t]
   | .loadAccountDelegated a => [.loadDelegated a]
+  | .create2Address _ _ _ => []
 
 /-- the `is_cold` bits in a `Host` answer -/
 def respBits : Interp.HostOp → Interp.HostResp → List Bool
@@ -76,6 +77,10 @@ theorem answer_trace {he : HostEnv} {w w1 : World} {op : Interp.HostOp} {resp : 
     obtain ⟨_, rfl⟩ := h
     exact ⟨rfl, rfl, fun o ho => nomatch ho⟩
   | blockHash n =>
+    simp only [answer, pure, Except.pure, Except.ok.injEq, Prod.mk.injEq] at h
+    obtain ⟨_, rfl⟩ := h
+    exact ⟨rfl, rfl, fun o ho => nomatch ho⟩
+  | create2Address d sl c =>
     simp only [answer, pure, Except.pure, Except.ok.injEq, Prod.mk.injEq] at h
     obtain ⟨_, rfl⟩ := h
     exact ⟨rfl, rfl, fun o ho => nomatch ho⟩
